@@ -276,6 +276,10 @@ def part1(res, tier, rng, wd):
         [[M(["lctl", "lsft"], ["a"])], [M(["lctl"], ["lsft"])]],
         [[K("lsft"), K("a")], [M(["lsft"], ["a"])]],
         [[O(["a", "a"])]],
+        # right-hand shift / ctrl / meta count as the left-hand keys (fix efb3afa): these two are the same sequence
+        [[M(["rsft"], ["a"])], [M(["lsft"], ["a"])]],
+        [[K("rctl"), K("a")], [K("lctl"), K("b")]],
+        [[M(["rmet"], ["b"])], [K("a")]],
     ]
     sp_real = real_tables(wd, "c12_special", [], [{"cfg": table_cfg(t)} for t in special])
     for t, rr in zip(special, sp_real):
@@ -479,20 +483,23 @@ def table_codes(defs):
 MODMASK = {42: 0x8000, 54: 0x8000, 29: 0x4000, 97: 0x4000, 56: 0x2000, 100: 0x1000, 125: 0x0800, 126: 0x0800}
 
 
+FOLD = {54: 42, 126: 125, 97: 29}
+
+
 def py_encode(d):
     """the permitted token strings of a definition (same meaning as SeqTab!StEncode; used only to name input classes)"""
     outs = [[]]
     for it in d:
         if it["t"] == "k":
-            alts = [[it["c"]]]
+            alts = [[FOLD.get(it["c"], it["c"])]]
         elif it["t"] == "m":
             toks, mask = [], 0
             for m in it["mods"]:
                 mask |= MODMASK.get(m, 0)
-                toks.append(m + mask)
-            alts = [toks + [k + mask for k in it["ks"]]]
+                toks.append(FOLD.get(m, m) + mask)
+            alts = [toks + [FOLD.get(k, k) + mask for k in it["ks"]]]
         else:
-            alts = [[k + 1024 for k in p] + [1024] for p in itertools.permutations(it["ks"])]
+            alts = [[FOLD.get(k, k) + 1024 for k in p] + [1024] for p in itertools.permutations(it["ks"])]
         outs = [o + a for o in outs for a in alts]
     return outs
 
